@@ -22,6 +22,14 @@ MinForestWeight(g) ==
         cands == {T \in kSubset(k, EIdx(g)) : IsSpanningForest(g, T)}
     IN CHOOSE m \in {Weight(g, T) : T \in cands} : \A T \in cands : m <= Weight(g, T)
 
+\* Minimality without enumeration (cycle property): a spanning forest is minimum iff every edge u-v of the graph
+\* already has its endpoints connected by forest edges that are not heavier than it.  Polynomial, and independent of
+\* how the implementation builds the forest.  L: the forest's <<u, v, w>> triples.
+MinByCycleProperty(g, L) ==
+    \A j \in EIdx(g) : Src(g, j) # Tgt(g, j) =>
+        LET hw == [n |-> g.n, dir |-> FALSE, E |-> SelectSeq(L, LAMBDA t : t[3] <= Wt(g, j))]
+        IN Tgt(g, j) \in WComp(hw, Src(g, j))
+
 \* the stream's edges as abstract <<u, v, w>> triples
 StreamEdges(st) == [j \in DOMAIN st.edges |-> <<st.nodes[st.edges[j][1] + 1], st.nodes[st.edges[j][2] + 1], st.edges[j][3]>>]
 \* every listed edge is an edge of g with that weight, as multisets (direction ignored when g is undirected storage)
@@ -44,7 +52,8 @@ ForestOK(g, st, comp, nord) ==      \* comp: the nodes that must be spanned (all
     /\ \A j \in DOMAIN L : L[j][1] \in comp /\ L[j][2] \in comp
     /\ \A u \in comp : WComp(h, u) = WComp(UG(g), u)          \* spans every component it must span
     /\ Len(L) = Cardinality(comp) - Cardinality({WComp(UG(g), u) : u \in comp})
-    /\ total = MinForestWeight(gc) 
+    /\ MinByCycleProperty(gc, L)
+    /\ (Len(gc.E) <= 12 => total = MinForestWeight(gc))     \* small graphs: also against ALL spanning forests
 
 Bad(r) ==
     LET g == [n |-> r.n, dir |-> r.dir, E |-> r.E]
